@@ -314,5 +314,15 @@ def run(repo, rep, tier):
   r2_queries(repo, rep)
   r3_r4_results(repo, rep)
   r5_input_frame(repo, rep)
+  # reading the results must neither change the heap nor hand out its internal lists (C14.R3): otherwise a second
+  # retrieval differs from the first, and what the caller does with the returned list changes the retained state
+  from mmsa.props import c14
+  sub = type(rep)(rep.prop, rep.tier, rep.repo)
+  selfn_, resultfield_, sizefields_ = c14.check_push(repo, type(rep)(rep.prop, rep.tier, rep.repo))
+  c14.check_get_result(repo, sub, selfn_, resultfield_, sizefields_)
+  for i in sub.instances:
+    if i.rule == 'R3/snapshot':
+      i.rule = 'R3/retrieval-snapshot'
+      rep.instances.append(i)
   rep.note('observation (not armed): greedy_search draws from the global NumPy RNG for a placeholder series whose score is overwritten with zeros; '
            'TBRMatchedMarkets.__init__ narrows data.df of the shared TBRMMData object to the analysis window (documented constructor behaviour)')
